@@ -81,6 +81,10 @@ type SliceV struct {
 	Len  *Term
 	Cap  *Term
 	Elem types.Type
+	// Stale is set when the header was loaded through a pointer that may alias
+	// an object whose header was stored earlier on the path: its len/cap may
+	// be out of date (the elements below the old length are not).
+	Stale string
 }
 
 type StructV struct {
@@ -240,6 +244,7 @@ type Effect struct {
 	Pos    token.Pos
 	Fn     *ssa.Function // function containing the instruction
 	Stack  []*ssa.Function
+	Sites  []token.Pos
 	Stor   *Storage
 	Idx    *Term // EStoreElem: storage-relative index; EIndex: view-relative index
 	Val    Val
